@@ -67,9 +67,11 @@ def _arg_class(ev):
         out.append("to=%s" % ev["to"])
     if ev.get("e") == "Convert":
         out.append("inplace" if ev.get("o") == ev.get("d") else "outofplace")
-    if obs:
-        out.append("dims=%sx%sx%s" % tuple(
-            "0" if v == 0 else "n" for v in (rows, cols, nf)))
+    # impedance mode where it can matter; dimensions are left out so that
+    # one defect keeps one signature
+    e = ev.get("e", "")
+    if obs and ("Z0" in e or e in ("Resize", "Init", "Convert", "HasFz0",
+                                  "AddFreq")):
         out.append("fz" if obs.get("fz") else "z0")
     return ",".join(out)
 
@@ -93,6 +95,19 @@ def _prev_type(lines, idx, ev):
     return "UNDEF"
 
 
+_EXPECTED_RE = re.compile(r'<<\s*"EXPECTED",\s*(.*?)\s*>>\s*\n(?:Error|\d+ states)', re.S)
+
+
+def _expected(f):
+    """the expectation the trace spec printed for the rejected event"""
+    if f.get("expected"):
+        return f["expected"]
+    m = _EXPECTED_RE.search(f.get("out") or "")
+    if m:
+        return re.sub(r"\s+", " ", m.group(1))[:700]
+    return None
+
+
 def issues_from_validation(ctx, res, label, family_prop):
     issues = []
     for f in res["failures"]:
@@ -114,6 +129,12 @@ def issues_from_validation(ctx, res, label, family_prop):
             if ev.get("e") == "Convert":
                 extra = ":from=%s" % _prev_type(f["lines"], f["index"], ev)
                 props |= {"C05", "C15"}
+            elif family_prop == "C05" and ev.get("e") != "Resize":
+                # a plain accessor misbehaving inside a conversion episode
+                # is array-model business, not conversion business
+                props = {"C15"}
+            elif family_prop == "C05":
+                props = {"C05", "C15"}
             sig = "NetData:%s:%s:%s%s" % (ev.get("e", evname), field,
                                           _arg_class(ev), extra)
             if field in ("refusal", "ok", "cb") or ev.get("ok") == 0:
@@ -124,7 +145,7 @@ def issues_from_validation(ctx, res, label, family_prop):
             what = ("%s: recorded call not explained by NetData at '%s' "
                     "(case %s, event %d: %s); spec expected %s" %
                     (label, field, case, f["index"],
-                     f["event"].strip()[:400], f.get("expected")))
+                     f["event"].strip()[:400], _expected(f)))
         rp = ctx.save_replay("netdata-%s.ndjson" % common.sig_hash(sig),
                              "".join(f["lines"]))
         issues.append(vlib.Issue(props, sig, what, replay=rp,
@@ -151,7 +172,13 @@ def issues_from_crashes(ctx, crashes, label, family_prop):
         rp = ctx.save_replay("netdata-crash-%s.txt" % common.sig_hash(sig),
                              "case %s\nrc %s\n%s" % (c["case"], c["rc"],
                                                      c["stderr"]))
-        issues.append(vlib.Issue({"C03", family_prop}, sig,
+        fam = {family_prop}
+        if family_prop == "C05" and "vnadata_convert" not in c["stderr"]:
+            # a report whose frames name another accessor is array-model
+            # business; a death without frames (abort, bare signal) may
+            # well be the conversion itself
+            fam = {"C15"} if s[1] != "?" else {"C05", "C15"}
+        issues.append(vlib.Issue({"C03"} | fam, sig,
                                  "%s: driver process died in case %s: %s in %s"
                                  % (label, c["case"], s[0], s[1]),
                                  replay=rp))
